@@ -65,6 +65,9 @@ fn prog_cfg(which: Which, variant: u64) -> ProgCfg {
         c.threads = (2, 2);
         c.ops = (2, 4);
     }
+    if variant % 9 == 8 {
+        c.deep = true;
+    }
     if variant % 13 == 12 {
         // a fresh level: the first add races with everything else
         c.preload = (0, 0);
